@@ -407,6 +407,19 @@ fn gen_for_seq(cases: &mut Vec<Case>, s: &SeqV, rng: &mut Rng, slice_extra_forms
                 format!("rms {} {} {}", s.req, bound_req(a), bound_req(b)),
                 true,
             );
+            // plain slice assignment is not implemented: must raise (F13), never panic
+            if rng.chance(1, 4) {
+                push(
+                    cases,
+                    "set",
+                    "slice",
+                    s,
+                    cls,
+                    format!("x = {}; x[{}:{}] = {}; x", s.src, bound_src(a), bound_src(b), v),
+                    format!("set {} {} r={};{}", s.req, vr, bound_req(a), bound_req(b)),
+                    true,
+                );
+            }
         }
     }
     if !s.finite {
